@@ -114,8 +114,7 @@ def main():
         "not_applicable": na,
         "notes": "Exit 0 = held on everything explored (KNOWN-FINDING lines possible), 1 = VIOLATION line(s), 2 = inconclusive/infrastructure (never a violation). VERIF_SEED selects the seed (default 1). Known findings: /verif/known_findings.json.",
     }
-    if not na:
-        del m["not_applicable"]
+    # (kept even when empty: every listed property is claimed; DESIGN.md section 7)
     json.dump(m, open(os.path.join(HERE, "MANIFEST.json"), "w"), indent=1)
     print("MANIFEST.json:", len(checks), "checks,", len(na), "not claimed")
 
